@@ -1078,4 +1078,57 @@ theorem accepts_complete_aux (I : Impl) (g : Graph) (root : Nat)
     rw [hres] at this
     exact absurd rfl this
 
+/-! ### which values the scalar types accept -/
+
+theorem vInt_exact {v w : PyVal} (h : vInt v = .ok w) :
+    (w = v ∧ conforms .int v = true) ∨ (∃ f i, v = .float f ∧ f.toInt? = some i ∧ w = .int i) := by
+  cases v with
+  | float f =>
+    cases f with
+    | fin n m e =>
+      simp only [vInt] at h
+      split at h
+      · rename_i i hi
+        simp at h; subst h
+        exact Or.inr ⟨_, i, rfl, hi, rfl⟩
+      · simp at h
+    | inf n => simp [vInt] at h
+    | nan => simp [vInt] at h
+  | int i => simp [vInt] at h; subst h; exact Or.inl ⟨rfl, rfl⟩
+  | bool b => simp [vInt] at h; subst h; exact Or.inl ⟨rfl, rfl⟩
+  | _ => simp [vInt] at h
+
+theorem vFloat_exact {v w : PyVal} (h : vFloat v = .ok w) :
+    (w = v ∧ conforms .float v = true) ∨ (∃ i f, v = .int i ∧ Fl.ofInt? i = some f ∧ w = .float f) ∨
+    (∃ b, v = .bool b ∧ w = .float (.fin false (if b then 1 else 0) 0)) := by
+  cases v with
+  | float f => simp [vFloat] at h; subst h; exact Or.inl ⟨rfl, rfl⟩
+  | int i =>
+    simp only [vFloat] at h
+    split at h
+    · rename_i f hf
+      simp at h; subst h
+      exact Or.inr (Or.inl ⟨i, f, rfl, hf, rfl⟩)
+    · simp at h
+  | bool b => simp [vFloat] at h; subst h; exact Or.inr (Or.inr ⟨b, rfl, rfl⟩)
+  | _ => simp [vFloat] at h
+
+theorem vStr_exact {v w : PyVal} (h : vStr v = .ok w) : w = v ∧ conforms .str v = true := by
+  cases v <;> simp [vStr] at h
+  subst h; exact ⟨rfl, rfl⟩
+
+theorem vPath_exact {v w : PyVal} (h : vPath v = .ok w) :
+    (w = v ∧ conforms .path v = true) ∨ (∃ s, v = .str s ∧ w = .path (pnorm s)) ∨
+    (∃ ks vs, v = .dict ks vs ∧ isPathTag (lookup "$type" ks vs) = true ∧ pathOf (lookup "$value" ks vs) = .ok w) := by
+  cases v with
+  | dict ks vs =>
+    simp only [vPath] at h
+    split at h
+    · rename_i ht
+      exact Or.inr (Or.inr ⟨ks, vs, rfl, ht, h⟩)
+    · simp at h
+  | str s => simp [vPath] at h; subst h; exact Or.inr (Or.inl ⟨s, rfl, rfl⟩)
+  | path s => simp [vPath] at h; subst h; exact Or.inl ⟨rfl, rfl⟩
+  | _ => simp [vPath] at h
+
 end XpmVerif.Validate
